@@ -256,7 +256,7 @@ var sortFacet = harness.Register(&harness.Facet[sortCase]{
 	Name:     "sort",
 	Rule:     "rapid: receiver = array or array-like of ≤ 8 pool values (numbers incl. -0/NaN, strings, booleans, null, undefined, tagged objects) and holes, no inherited indices and no restricted attributes (15.4.4.11 makes those implementation-defined), length exact/nearby/odd; comparator ∈ {omitted, reverse string order, typeof+string order, constant 0, fractional results ±0.25, huge results -1e300/1e19/-0, results ±Infinity, throwing at the k-th comparison}; validity predicate: returns the receiver, comparefn only sees defined values, result is a permutation (by identity and SameValue) with defined values first in comparator order, then undefined, then holes; properties outside [0,len) untouched; non-trivial = holes/odd length or a comparator is given; distinct by the whole case",
 	Quick:    4000,
-	Thorough: 30000,
+	Thorough: 20000,
 	Gen: func(t *rapid.T) sortCase {
 		c := sortCase{Env: genEnv(t, true)}
 		cmps := []string{"default", "default", "revstr", "typestr", "zero", "frac", "big", "inf", "throw"}
